@@ -2,6 +2,8 @@
   C16 — array coefficients, sequences, callables and plain numbers broadcast right.
 -/
 import Kingdon.Lemmas.ApiLemmas
+import Kingdon.Lemmas.Naturality
+import Mathlib.Algebra.Ring.Pi
 namespace Kingdon.C16
 open Kingdon.Api
 variable {M : Type}
@@ -39,5 +41,19 @@ theorem reflected_methods_keep_order :
       (fun p => (Gen.mvDispatch.lookup p.1).map (·.1) == (Gen.mvDispatch.lookup p.2).map (·.1) &&
                 (Gen.mvDispatch.lookup p.1).isSome) = true :=
   ⟨reflected_methods_swap, reflected_methods_same_operator⟩
+
+/-- with array-valued coefficients (functions `ι → α` on an index set, element-wise arithmetic) every product-type
+    operator acts element-wise: indexing the result at `i` equals operating on the operands indexed at `i` -/
+theorem indexing_commutes_with_products {ι α : Type} [CommRing α] (i : ι) (signf : Nat → Nat → Int)
+    (keyout : Nat → Nat → Nat) (filt : Nat → Nat → Nat → Bool) (x y : MV (ι → α)) :
+    mapV (Pi.evalRingHom (fun _ => α) i) (codegenProduct signf keyout filt x y) =
+      codegenProduct signf keyout filt (mapV (Pi.evalRingHom (fun _ => α) i) x) (mapV (Pi.evalRingHom (fun _ => α) i) y) :=
+  codegenProduct_map_hom _ signf keyout filt x y
+
+theorem indexing_commutes_with_linear_ops {ι α : Type} [CommRing α] (i : ι) (gs : List Nat) (x y : MV (ι → α)) :
+    mapV (Pi.evalRingHom (fun _ => α) i) (add x y) = add (mapV (Pi.evalRingHom (fun _ => α) i) x) (mapV (Pi.evalRingHom (fun _ => α) i) y) ∧
+    mapV (Pi.evalRingHom (fun _ => α) i) (sub x y) = sub (mapV (Pi.evalRingHom (fun _ => α) i) x) (mapV (Pi.evalRingHom (fun _ => α) i) y) ∧
+    mapV (Pi.evalRingHom (fun _ => α) i) (involutions gs x) = involutions gs (mapV (Pi.evalRingHom (fun _ => α) i) x) :=
+  ⟨add_map_hom _ x y, sub_map_hom _ x y, involutions_map_hom _ gs x⟩
 
 end Kingdon.C16
